@@ -49,9 +49,9 @@ type RunParams struct {
 	SkipPrivate bool   `json:"skip_private"`
 	Query       string `json:"query"` // via http: raw query string
 	// environment
-	PubMode    string            `json:"pub_mode"`    // ok | fail | slow
-	DNS        wire.StrMap       `json:"dns"`         // addr -> "name1,name2" | "!err" | "~slow:name" | "" (empty list)
-	ListenPort int               `json:"listen_port"` // harness TCP listener on the target (SACK capability); 0 = none
+	PubMode    string      `json:"pub_mode"`    // ok | fail | slow
+	DNS        wire.StrMap `json:"dns"`         // addr -> "name1,name2" | "!err" | "~slow:name" | "" (empty list)
+	ListenPort int         `json:"listen_port"` // harness TCP listener on the target (SACK capability); 0 = none
 }
 
 type scriptedFetcher struct {
